@@ -58,6 +58,10 @@ func init() {
 				Bound: "every connected 2-layer graph on 3+4 nodes x {sink,ns} x width table in all 8 rotations"},
 			{Name: "families", Space: spaceList(wideFamilies()), Eval: stdEval("C04", rot(saP4), or),
 				Bound: "K(a,b) a,b<=5, stars up to 12 leaves, binary trees depth<=4 x 4 size-aware positioners x width table in all 8 rotations"},
+			{Name: "macro-3", Space: spaceMacro(3, false), Eval: stdEval("C04", staticGrid([]Cfg{
+				{P2: 0, P4: 0, P5: 0, SZ: 2, NS: 4, LS: 8, TH: -1}, {P2: 1, P4: 0, P5: 0, SZ: 2, Rot: 3, NS: 4, LS: 8, TH: -1},
+				{P2: 0, P4: 1, P5: 0, SZ: 2, Rot: 5, NS: 0, LS: 8, TH: -1}, {P2: 0, P4: 2, P5: 0, SZ: 2, Rot: 1, NS: 4, LS: 8, TH: -1}}), or),
+				Bound: "every graph built by <=3 gadget insertions (shapes with up to 13 edges) x {sink x2, valign, packright} x per-node sizes in 4 rotations"},
 			{Name: "seeds", Space: spaceSeeded(seedWitnesses, tierPick(tier, 1, 2)), Eval: stdEval("C04", staticGrid(gridSpec{P1: allP1, P2: allP2, P4: saP4, P5: []int{0}, SZ: []int{2, 4}}.list()), or),
 				Bound: "all states within 1 (thorough 2) edit operations of the recorded witnesses x size-aware positioners x per-node sizes"},
 		}
@@ -94,6 +98,8 @@ func init() {
 				Bound: fmt.Sprintf("all edge lists with %d edges x {greedy,dfs} x {ns,lp} x {sink,bk} x {polyline,ortho} x per-node", d+1)},
 			{Name: "G-random-greedy", Space: spaceG(1, 4, 0, cyclic), Eval: stdEval("C05", staticGrid(gridSpec{P1: []int{2}, P2: allP2, P4: []int{0}, P5: []int{2}, SZ: []int{2}}.list()), or),
 				Bound: "all cyclic edge lists with <=4 edges x greedy-random with every RNG answer sequence"},
+			{Name: "macro-3", Space: spaceMacro(3, false), Eval: stdEval("C05", staticGrid(gridSpec{P1: []int{0}, P2: allP2, P4: []int{0, 4}, P5: []int{2, 3}, SZ: []int{2}}.list()), or),
+				Bound: "every graph built by <=3 gadget insertions (shapes with up to 13 edges) x greedy x {ns,lp} x {sink,bk} x {polyline,ortho} x per-node sizes"},
 			{Name: "seeds", Space: spaceSeeded(seedWitnesses, tierPick(tier, 1, 2)), Eval: stdEval("C05", staticGrid(g), or),
 				Bound: "all states within 1 (thorough 2) edit operations of the recorded witnesses"},
 		}
@@ -129,6 +135,8 @@ func init() {
 				}
 				return out
 			}, or), Bound: "all edge lists with 2..4 edges x the size table in all 7 other rotations (which node is tall/short, wide/narrow) x {polyline,ortho}, positioner and layerer varied with the rotation"},
+			{Name: "macro-3", Space: spaceMacro(3, false), Eval: stdEval("C06", staticGrid(gridSpec{P1: []int{0}, P2: allP2, P4: []int{0, 1}, P5: []int{2, 3}, SZ: []int{2}}.list()), or),
+				Bound: "every graph built by <=3 gadget insertions (shapes with up to 13 edges) x greedy x {ns,lp} x {sink,valign} x {polyline,ortho} x per-node sizes"},
 			{Name: "seeds", Space: spaceSeeded(seedWitnesses, tierPick(tier, 1, 2)), Eval: stdEval("C06", staticGrid(g), or),
 				Bound: "all states within 1 (thorough 2) edit operations of the recorded witnesses"},
 		}
@@ -234,6 +242,14 @@ func init() {
 				{P2: 0, P4: 0, P5: 2, SZ: 2, Rot: 5, NS: 4, LS: 8, TH: -1}, {P2: 0, P4: 3, P5: 2, SZ: 2, Rot: 1, NS: 4, LS: 8, TH: -1},
 				{P2: 1, P4: 1, P5: 2, SZ: 2, Rot: 6, NS: 4, LS: 8, TH: -1}, {P2: 0, P4: 2, P5: 2, SZ: 2, Rot: 2, NS: 4, LS: 8, TH: -1}})), or),
 				Bound: "all simple edge lists with 5..6 edges on <=5 nodes x heterogeneous widths (size table in 6 rotations) x {sink x3, ns, valign, packright}: the order chosen by crossing minimisation must survive positioning with wide next to narrow nodes"},
+			{Name: "macro-3-simple", Space: func(emit func(Input)) {
+				spaceMacro(3, false)(func(in Input) {
+					if analyze(in).Simple {
+						emit(in)
+					}
+				})
+			}, Eval: stdEval("C12", staticGrid(g1), or),
+				Bound: "every SIMPLE graph built by <=3 gadget insertions (shapes with up to 13 edges) x {ns,lp} x {sink,valign}"},
 			{Name: "layered-3x4", Space: spaceLayered([]int{3, 4}, false), Eval: stdEval("C12", staticGrid(g1), or),
 				Bound: "every 2-layer graph on up to 3+4 nodes (all 4095 edge subsets, 2 edge orders) x {ns,lp} x {sink,valign}"},
 			{Name: "layered-2x3x2", Space: spaceLayered([]int{2, 3, 2}, false), Eval: stdEval("C12", staticGrid(g1), or),
